@@ -51,6 +51,8 @@ struct Spec {
   double E1, w1, E2, w2; // photon energies (eV) and weights; w2 == 0: single
   double jbar[NUMBER_OF_IONNAMES]; // sum w sigma_ion(nu) / sum w   (m^2)
   double hH, hHe;                  // sum w sigma (nu - nu_th) / sum w (m^2 Hz)
+  bool hard = false;               // contains a photon energy >= 10 x 13.6 eV
+  bool quick_thermal = true;       // part of the quick tier of the thermal part
   std::string name() const {
     return w2 == 0. ? fmt("%.17g eV", E1) : fmt("%.17g eV x %g + %.17g eV x %g", E1, w1, E2, w2);
   }
@@ -84,21 +86,55 @@ static void produce(Spec &s, const VernerCrossSections &cs) {
 }
 
 static std::vector< Spec > make_spectra(bool thorough, const VernerCrossSections &cs) {
-  // 13.6+ : just above the hydrogen threshold of the Verner table (13.60 eV)
-  std::vector< double > E = {13.6 * (1. + 1.e-12), 16., 24.5, 24.7, 35., 54.3, 54.5, 100.};
+  // soft photons (what the code's own source spectra emit, <= 4 x 13.6 eV,
+  // plus 100 eV). 13.6+ : just above the hydrogen threshold of the Verner
+  // table (13.60 eV)
+  std::vector< double > soft = {13.6 * (1. + 1.e-12), 16., 24.5, 24.7, 35., 54.3, 54.5, 100.};
   if (thorough)
-    E.push_back(24.595); // He-ionizing but below the 5.948e15 Hz used for He heating
+    soft.push_back(24.595); // He-ionizing but below the 5.948e15 Hz used for He heating
+  // hard photons: 10, 15, 30, 50, 70, 100 x 13.6 eV (the cross section data
+  // go to 100 x 13.6 eV; "any mixture of frequencies above the hydrogen
+  // threshold")
+  const std::vector< double > hard = {136., 204., 408., 680., 952., 1360.};
+  // soft partners of the hard photons in the quick tier of the thermal part:
+  // one per regime (H only / He ionizing / above 4 x 13.6 eV)
+  auto quick_partner = [](double E) { return E == 13.6 * (1. + 1.e-12) || E == 24.7 || E == 54.5; };
   std::vector< Spec > out;
-  for (size_t a = 0; a < E.size(); ++a) {
-    Spec s{E[a], 1., 0., 0.};
+  auto add = [&](double E1, double w1, double E2, double w2, bool is_hard, bool qt) {
+    Spec s{E1, w1, E2, w2};
+    s.hard = is_hard;
+    s.quick_thermal = qt;
     out.push_back(s);
-  }
-  for (size_t a = 0; a < E.size(); ++a)
-    for (size_t b = a + 1; b < E.size(); ++b) {
-      out.push_back(Spec{E[a], 1., E[b], 1.});
-      out.push_back(Spec{E[a], 1., E[b], 1.e-3});
+  };
+  for (double E : soft)
+    add(E, 1., 0., 0., false, true);
+  for (double E : hard)
+    add(E, 1., 0., 0., true, true);
+  // soft-soft mixtures
+  for (size_t a = 0; a < soft.size(); ++a)
+    for (size_t b = a + 1; b < soft.size(); ++b) {
+      add(soft[a], 1., soft[b], 1., false, true);
+      add(soft[a], 1., soft[b], 1.e-3, false, true);
       if (thorough)
-        out.push_back(Spec{E[a], 1.e-3, E[b], 1.});
+        add(soft[a], 1.e-3, soft[b], 1., false, true);
+    }
+  // soft-hard mixtures, both weight ratios in both directions. A trace of
+  // soft photons (1e-3) still dominates J_H (sigma_H(1360 eV) ~ 1e-6
+  // sigma_H(13.6 eV)) while the hard photons dominate the coolants.
+  for (double Es : soft)
+    for (double Eh : hard) {
+      const bool qp = quick_partner(Es);
+      add(Es, 1., Eh, 1., true, qp);
+      add(Es, 1.e-3, Eh, 1., true, qp);
+      add(Es, 1., Eh, 1.e-3, true, false);
+    }
+  // hard-hard mixtures
+  for (size_t a = 0; a < hard.size(); ++a)
+    for (size_t b = a + 1; b < hard.size(); ++b) {
+      add(hard[a], 1., hard[b], 1., true, false);
+      add(hard[a], 1., hard[b], 1.e-3, true, false);
+      if (thorough)
+        add(hard[a], 1.e-3, hard[b], 1., true, false);
     }
   for (Spec &s : out)
     produce(s, cs);
@@ -125,9 +161,7 @@ static Alphabet make_alphabet(bool thorough, const VernerCrossSections &cs) {
     A.dens.push_back(std::pow(10., k));
   A.temp = {1.e2, 1.e3, 5.e3, 1.e4, 3.e4, 1.e5};
   A.AHe = {0., 0.05, 0.1, 0.15};
-  A.metals = {0., 1.e-5, 1.e-3};
-  if (thorough)
-    A.metals.push_back(-1.);
+  A.metals = {0., 1.e-5, 1.e-3, -1.}; // -1: default abundances (2.2e-4, 4e-5, 3.3e-4, 5e-5, 9e-6)
   return A;
 }
 
@@ -596,27 +630,51 @@ int main(int argc, char **argv) {
   } else if (what == "temp") {
     const size_t NM = AL.metals.size();
     const int NCFG = thorough ? 3 : 1; // 0: no PAH/CR heating, 1: PAH heating 1, 2: cosmic ray heating 1
-    // quick tier: every other flux decade is enough to cross every regime
-    // twice; stated as the quick alphabet, not a cap
+    // quick tier (stated quick alphabet, not a cap): every other flux decade
+    // counted down from the strongest one (1e20, 1e18, ... 1e-2, and 0);
+    // soft spectra with metals {0, 1e-3};
+    // hard spectra (singles and the quick_thermal mixtures) with AHe {0, 0.1}
+    // and metals {0, default, 1e-3} so that strong flux x dense gas x default
+    // and higher metal abundances is covered for them
     std::vector< size_t > fl;
     for (size_t iF = 0; iF < NF; ++iF)
-      if (thorough || iF == 0 || (iF % 2) == 1)
+      if (thorough || iF == 0 || ((NF - 1 - iF) % 2) == 0)
         fl.push_back(iF);
-    std::vector< size_t > ml;
-    for (size_t iM = 0; iM < NM; ++iM)
-      if (thorough || iM != 1)
-        ml.push_back(iM);
+    // both tiers: initial temperature 1e3 K dropped (every T <= 4000 K restarts
+    // the iteration at 8000 K: exact duplicate of 1e2 K); thorough: the PAH and
+    // cosmic-ray heating configurations run with the default metal abundances
+    std::vector< size_t > tl;
+    for (size_t iT = 0; iT < NT; ++iT)
+      if (AL.temp[iT] != 1.e3)
+        tl.push_back(iT);
     struct Job {
       size_t is, iA, iM, iF;
       int cfg;
     };
     std::vector< Job > jobs;
-    for (size_t io = 0; io < NS; ++io)
-      for (size_t iA = 0; iA < NA; ++iA)
-        for (size_t iM : ml)
-          for (int cfg = 0; cfg < NCFG; ++cfg)
+    size_t nspec_used = 0;
+    for (size_t io = 0; io < NS; ++io) {
+      const Spec &sp = AL.spectra[sorder[io]];
+      if (!thorough && !sp.quick_thermal)
+        continue;
+      ++nspec_used;
+      for (size_t iA = 0; iA < NA; ++iA) {
+        if (!thorough && sp.hard && !(AL.AHe[iA] == 0. || AL.AHe[iA] == 0.1))
+          continue;
+        for (size_t iM = 0; iM < NM; ++iM) {
+          const double m = AL.metals[iM];
+          if (!thorough && !(m == 0. || m == 1.e-3 || (sp.hard && m < 0.)))
+            continue;
+          for (int cfg = 0; cfg < NCFG; ++cfg) {
+            if (cfg != 0 && !(m < 0.))
+              continue;
             for (size_t iF : fl)
               jobs.push_back(Job{sorder[io], iA, iM, iF, cfg});
+          }
+        }
+      }
+    }
+    R.set("thermal_spectra_used", (double)nspec_used);
     std::atomic< size_t > done(0);
 #pragma omp parallel
     {
@@ -640,7 +698,7 @@ int main(int argc, char **argv) {
         {
           const size_t iF = jb.iF;
           for (size_t in = 0; in < NN; ++in)
-            for (size_t iT = 0; iT < NT; ++iT) {
+            for (size_t iT : tl) {
               const double F = AL.flux[iF], n = AL.dens[in], T = AL.temp[iT];
               const double jH = F * s.jbar[ION_H_n];
               IonizationVariables iv;
@@ -648,9 +706,7 @@ int main(int argc, char **argv) {
               Outcome o;
               ++st.evaluations;
               const bool general = (jH > 0. && n > 0.);
-              // initial temperatures <= 4000 K all start the iteration at
-              // 8000 K: only one of them counts as distinct
-              if (general && !(T <= 4000. && iT > 0))
+              if (general)
                 ++st.nontrivial;
               const std::string regime = !general ? (n > 0. ? "zero-flux" : "vacuum")
                                                   : (jH < 1.e-20 ? "jH-below-1e-20" : "general");
@@ -738,11 +794,12 @@ int main(int argc, char **argv) {
   R.rule = fmt("Cartesian product of produced spectra (single photon energies and pairs with weight ratios, pushed through the "
                "real Verner cross sections like DensitySubGrid::update_intensity_counters) x flux alphabet {0, 1e-3..1e20 m^-2 s^-1} "
                "x n {0, 1e4..1e12 m^-3} x T {1e2,1e3,5e3,1e4,3e4,1e5 K} x AHe {0,.05,.1,.15}%s, every cell run through the real %s; "
+               "photon energies: soft {13.6+,16,24.5,24.7,35,54.3,54.5,100 eV} and hard {10,15,30,50,70,100 x 13.6 eV}; "
                "non-trivial = cells with J_H > 0 and n > 0 (general branch)%s, all distinct by construction",
                what == "temp" ? " x metal abundances x heating configuration" : "",
                what == "temp" ? "TemperatureCalculator::calculate_temperature"
                               : "IonizationStateCalculator::calculate_ionization_state and static H/He solver",
-               what == "temp" ? ", counting initial temperatures <= 4000 K (all restarted at 8000 K) once" : "");
+               what == "temp" ? "; initial temperature 1e3 K is left out (T <= 4000 K restarts at 8000 K, duplicate of 1e2 K)" : "");
   R.assumptions.push_back("estimator sets are those producible by 1 or 2 photon energies from the stated alphabet; recombination, "
                           "charge transfer and line cooling data are the shipped tables; TemperatureCalculator parameters are the "
                           "defaults (epsilon 1e-3, 100 iterations, 4000 K minimum ionized temperature)");
